@@ -13,6 +13,8 @@ mod family;
 mod flw;
 mod p_c01;
 mod p_c02;
+mod p_c03;
+mod p_c04;
 mod p_c05;
 mod p_c06;
 mod p_c07;
@@ -39,6 +41,8 @@ fn run_one(prop: &str, ctx: &mut CaseCtx) -> CaseResult {
     match prop {
         "C01" => p_c01::run_case(ctx),
         "C02" => p_c02::run_case(ctx),
+        "C03" => p_c03::run_case(ctx),
+        "C04" => p_c04::run_case(ctx),
         "C05" => p_c05::run_case(ctx),
         "C06" => p_c06::run_case(ctx),
         "C07" => p_c07::run_case(ctx),
@@ -304,6 +308,8 @@ fn main() {
             match (a.prop.as_str(), a.role.as_str()) {
                 ("C20", _) => p_c20::child_main(&a),
                 ("C13", _) => p_c13::child_main(&a),
+                ("C03", _) => p_c03::child_main(&a),
+                ("C04", _) => p_c04::child_main(&a),
                 _ => {
                     eprintln!("no child role {} for {}", a.role, a.prop);
                     2
